@@ -17,7 +17,12 @@ def handle (op : String) (j : Json) : Except String Json := do
     let mode := if (← getStr j "mode") == "carry" then Mode.carry else Mode.seek
     let file ← getNatList j "file"
     let k ← getNat j "k"
-    pure (reply (out (readValidate n marker cp mode file k)))
+    if (← getStr j "via") == "whole" then
+      match wholeValidateT n marker cp file with
+      | .ok r => pure (reply (out r))
+      | _ => pure (reply (Json.mkObj [("err", Json.str "other")]))
+    else
+      pure (reply (out (readValidateT n marker cp mode file k)))
   | "delim_read" =>
     let mode := if (← getStr j "mode") == "carry" then Mode.carry else Mode.seek
     let file ← getNatList j "file"
